@@ -547,6 +547,27 @@ def job_inplace_history(job):
                             out['failures'].append({'config': cfg, 'op': name, 'backing': backing, 'a_keys': list(ak_), 'b_keys': list(bk),
                                                     'what': 'result after an in-place update of the operand differs from a fresh algebra on the current coefficients',
                                                     'history': 'op(a, b); coefficients of a changed in place; op(a, b)', 'got': str(got)[:200], 'expected': str(exp)[:200]})
+        # calling a symbolic multivector before and after one of its coefficients was replaced in place
+        import sympy
+        for it in range(2):
+            out['evaluations'] += 1
+            ck = tuple(sorted(rng.sample(range(N), min(N, 3))))
+            t_ = sympy.Symbol('t')
+            try:
+                x = mv_from(alg, ck, [t_] + [2] * (len(ck) - 1))
+                x(t=3)
+                x.values()[-1] = 5 if len(ck) > 1 else 2 * t_
+                got = O.nz(fr.mv_to_ref(x(t=3)))
+                fresh = make_algebra(cfg)
+                exp = O.nz(fr.mv_to_ref(mv_from(fresh, ck, list(x.values()))(t=3)))
+                ok = O.eq(got, exp)
+            except Exception as e:
+                ok, got, exp = False, type(e).__name__ + ': ' + str(e)[:100], None
+            if not ok and percat.get('call', 0) < 3:
+                percat['call'] = percat.get('call', 0) + 1
+                out['failures'].append({'config': cfg, 'op': 'call', 'a_keys': list(ck),
+                                        'what': 'calling a symbolic multivector after an in-place update of a coefficient returns the value of the earlier call',
+                                        'history': 'x(t=3); x.values()[-1] = 5; x(t=3)', 'got': str(got)[:200], 'expected': str(exp)[:200]})
         if len(out['samples']) < 3:
             out['samples'].append({'config': cfg, 'a_keys': list(ak), 'b_keys': list(bk)})
     out['distinct'] = len(pats)
